@@ -99,7 +99,7 @@ fn prepare<G: Group>(sc: &Scenario, idx: usize, st: &mut RunStats, rng: &mut Sim
         Ok(Ok(p)) => p,
         other => {
             return Err(Violation::new(
-                "pool_member_unprovable",
+                "harness:pool_member_unprovable",
                 format!("pool[{}]", idx),
                 format!("honest pool member could not be proved: {:?}", other.map(|r| r.map(|_| ()))),
             ))
